@@ -95,6 +95,8 @@ DEFAULT = {
     'voltype': 'VM',        # how the volumes are handed to kawin: molar volume, atomic (cell) volume or lattice parameter
     'minRadius': None,      # constraints.minRadius (None = kawin's default 3e-10)
     'Rmin': None,           # precipitateParameters[p].Rmin (None = default 3e-10)
+    'strain': None,         # {phase name: {'eig': [e11, e22, e33], 'calc': bool}}: elastic strain energy per phase (travels with
+                            # the phase name); calc=True makes the aspect ratio follow from the strain energy (needle shape)
 }
 
 
@@ -177,6 +179,14 @@ def build_model(cfg, therm=None, names=None, elements=None):
             m.setPrecipitateShape(c['shape'], phase=nme, ratio=c['ratio'])
         m.setNucleationSite(sites[i], phase=nme)
         m.setInfinitePrecipitateDiffusivity(c['precdiff'] == 'inf', phase=nme)
+        if c['strain'] and nme in c['strain']:
+            sp = c['strain'][nme]
+            pp_ = m.precipitateParameters[i]
+            pp_.strainEnergy.setElasticConstants(168.4e9, 121.4e9, 75.4e9)
+            pp_.strainEnergy.setEigenstrain(sp['eig'])
+            if sites[i] in ('bulk', 'dislocations'):
+                pp_.shapeFactor.setPrecipitateShape('needle')
+                pp_.calculateAspectRatio = bool(sp.get('calc', False))
     if c['parents'] and len(names) > 1:
         m.setParentPhases(names[1], [names[0]])
     if c['constraints']:
